@@ -561,8 +561,8 @@ func (db *Database) performFuzzySearch(query string, options SearchOptions) []Se
 			break
 		}
 
-		// Apply fuzzy threshold
-		if options.FuzzyThreshold > 0 && match.Score < options.FuzzyThreshold {
+		// Apply fuzzy threshold (0 means none; match scores are usually negative, so are thresholds)
+		if options.FuzzyThreshold != 0 && match.Score < options.FuzzyThreshold {
 			continue
 		}
 
